@@ -358,13 +358,23 @@ def Enforcer.enableAutoNotify (e : Enforcer) (b : Bool) : Enforcer :=
 
 /-! ## Evaluation -/
 
-def Enforcer.evalCfg (e : Enforcer) (suffix : String) (plain : Bool) : EvalCfg :=
-  let rk := "r" ++ suffix; let pk := "p" ++ suffix; let ek := "e" ++ suffix; let mk := "m" ++ suffix
-  let rd := e.defs.r.lookup rk
-  let pd := e.store.find "p" pk
-  let ed := e.defs.e.lookup ek
-  let md := e.defs.m.lookup mk
-  let eftToken := pk ++ "_eft"
+/-- the four section keys of an `EnforceContext` (enforcer.rs:77-99) -/
+structure CtxKeys where
+  r : String
+  p : String
+  e : String
+  m : String
+  deriving DecidableEq, Repr
+
+def CtxKeys.ofSuffix (suffix : String) : CtxKeys :=
+  ⟨"r" ++ suffix, "p" ++ suffix, "e" ++ suffix, "m" ++ suffix⟩
+
+def Enforcer.evalCfgKeys (e : Enforcer) (k : CtxKeys) (plain : Bool) : EvalCfg :=
+  let rd := e.defs.r.lookup k.r
+  let pd := e.store.find "p" k.p
+  let ed := e.defs.e.lookup k.e
+  let md := e.defs.m.lookup k.m
+  let eftToken := k.p ++ "_eft"
   { enabled := e.enabled
     sectionsOk := rd.isSome && pd.isSome && ed.isSome && md.isSome
     rtokens := rd.getD 0
@@ -373,6 +383,9 @@ def Enforcer.evalCfg (e : Enforcer) (suffix : String) (plain : Bool) : EvalCfg :
     eftToken := eftToken
     compiles := (md.getD none).isSome
     policy := (pd.map (·.policy)).getD [] }
+
+def Enforcer.evalCfg (e : Enforcer) (suffix : String) (plain : Bool) : EvalCfg :=
+  e.evalCfgKeys (CtxKeys.ofSuffix suffix) plain
 
 def Enforcer.env (e : Enforcer) (call : String → List String → Option Atom)
     (tbl : String → Option Expr) (req : List Val) (rule : Rule) : Env :=
@@ -384,6 +397,18 @@ def Enforcer.matchFn (e : Enforcer) (suffix : String) (call : String → List St
     match (e.defs.m.lookup ("m" ++ suffix)).getD none with
     | none => none
     | some ex => ex.evalBool (e.env call tbl req rule)
+
+def Enforcer.matchFnKey (e : Enforcer) (mkey : String) (call : String → List String → Option Atom)
+    (tbl : String → Option Expr) (req : List Val) : MatchFn :=
+  fun rule =>
+    match (e.defs.m.lookup mkey).getD none with
+    | none => none
+    | some ex => ex.evalBool (e.env call tbl req rule)
+
+/-- `enforce_with_context` with a hand-built context (public fields) -/
+def Enforcer.enforceKeys (e : Enforcer) (k : CtxKeys) (call : String → List String → Option Atom)
+    (tbl : String → Option Expr) (req : List Val) : Out ErrKind Bool :=
+  enforceCore (e.evalCfgKeys k false) req.length (e.matchFnKey k.m call tbl req)
 
 /-- `CoreApi::enforce` -/
 def Enforcer.enforce (e : Enforcer) (call : String → List String → Option Atom)
